@@ -95,6 +95,18 @@ CLAIMED = {
         technique='Coq proof (Q arithmetic: field/nra/lia) over translator-generated model + in-Coq correspondence evaluation'),
 }
 
+CLAIMED['C16'] = dict(
+    text='Coq theorems over an abstract value domain (numbers as exact rationals, strings, lists of numbers / strings, None) and ANY prior attributes: '
+         'the written dictionary always matches itself (reflexive after the HDF5 round trip), any same-kind change of one entry (scalar, string, '
+         'length, string element, numeric element beyond the np.allclose tolerance) reports a mismatch wherever the entry sits, an unstored key '
+         'reports a mismatch, None entries are ignored, the comparison is a total pure function; the full sensitivity statement is refuted '
+         'inside the tolerance with a machine-checked witness (open known finding). The model is compared with the real function on thousands of '
+         '(dictionary, perturbed query) pairs inside coqc; exceptions and changed attribute digests are disagreements.',
+    design='5/C16',
+    note='Trusted: Coq kernel, write_simple_attrs/get_attr round trip as abstracted (numbers -> Q, strings -> ids), exact-rational reading of '
+         'np.allclose. NaN excluded (NaN != NaN). Two genuine defects fixed (0-d iteration TypeError, scalar/sequence broadcast).',
+    technique='Coq proof (induction over the query, Q arithmetic) + refutation witness + in-Coq correspondence evaluation')
+
 NOT_YET = {}
 
 TITLES = {}
